@@ -350,6 +350,7 @@ void EGLPNUM_TYPENAME_ILLlpdata_init (
 		EGLPNUM_TYPENAME_ILLmatrix_init (&lp->sos);
 		lp->rA = 0;
 		lp->is_sos_mem = NULL;
+		lp->sos_type = NULL;
 		lp->refrowname = NULL;
 		lp->refind = -1;
 
@@ -393,6 +394,7 @@ void EGLPNUM_TYPENAME_ILLlpdata_free (
 			ILL_IFFREE(lp->rA);
 		}
 		ILL_IFFREE(lp->is_sos_mem);
+		ILL_IFFREE(lp->sos_type);
 		ILL_IFFREE(lp->refrowname);
 
 		EGLPNUM_TYPENAME_ILLmatrix_free (&lp->sos);
